@@ -196,6 +196,46 @@ fn run_case(line: &str, known_env: &mut BTreeSet<Vec<u8>>) -> (String, String) {
                 let (man, dr) = guard(&|| opts.render_manpage(app.clone(), bpaf::doc::Section::General, None, None, None));
                 Ok(format!("DOCS\t{}\t{}\t{}\t{}\t{}\t{}", html, man, dh, dr, md, (dm == dh) as u8))
             }
+            // one OptionParser, many operations, twice over: parse, completion at every revision (with the application name
+            // the case gives, or none), documentation -- the second round must repeat the first (C04: total and pure)
+            "history" => {
+                let mut out: Vec<String> = Vec::new();
+                for _round in 0..2 {
+                    let argv2 = argv.clone();
+                    let r = std::panic::catch_unwind(std::panic::AssertUnwindSafe(|| opts.run_inner(mk_args(&argv2, name))));
+                    out.push(match r {
+                        Ok(r) => show(r),
+                        Err(p) => format!("PANIC\t{}", to_hex(panic_text(&p).as_bytes())),
+                    });
+                    #[cfg(feature = "autocomplete")]
+                    for rev in [0usize, 1, 7, 8, 9] {
+                        let argv2 = argv.clone();
+                        let r = std::panic::catch_unwind(std::panic::AssertUnwindSafe(|| {
+                            opts.run_inner(mk_args(&argv2, name).set_comp(rev))
+                        }));
+                        out.push(match r {
+                            Ok(r) => format!("rev{} {}", rev, show(r)),
+                            Err(p) => format!("rev{} PANIC\t{}", rev, to_hex(panic_text(&p).as_bytes())),
+                        });
+                    }
+                    #[cfg(feature = "docgen")]
+                    {
+                        let docs: [(&str, &dyn Fn() -> String); 3] = [
+                            ("html", &|| opts.render_html("app")),
+                            ("markdown", &|| opts.render_markdown("app")),
+                            ("manpage", &|| opts.render_manpage("app", bpaf::doc::Section::General, None, None, None)),
+                        ];
+                        for (what, f) in docs.iter() {
+                            let r = std::panic::catch_unwind(std::panic::AssertUnwindSafe(f));
+                            out.push(match r {
+                                Ok(s) => format!("{} {}", what, to_hex(s.as_bytes())),
+                                Err(p) => format!("{} PANIC\t{}", what, to_hex(panic_text(&p).as_bytes())),
+                            });
+                        }
+                    }
+                }
+                Ok(format!("HISTORY\t{}", out.join("\t|\t")))
+            }
             "invariant" => {
                 let r = std::panic::catch_unwind(std::panic::AssertUnwindSafe(|| opts.check_invariants(false)));
                 Ok(format!("INVARIANT\t{}", r.is_ok()))
